@@ -310,6 +310,11 @@ def main(argv=None) -> int:
         a.no_evidence = True
     if not a.prop:
         ap.error('property id required')
+    # thorough tier: same obligations with a 6x solver budget per query, and the bounded stand-ins with larger bounds
+    os.environ['VERIF_TIER'] = a.tier
+    if a.tier == 'thorough':
+        from . import pathmgr as _pm
+        _pm.SOLVER_TIMEOUT_MS = 60_000
     ix, cts, v = build()
     pid = a.prop
     targets = []
